@@ -808,7 +808,9 @@ BOUNDED = {p: [_MON] for p in ("C01", "C02", "C03", "C04", "C05")}
 _VAL = {"name": "validation-topologies", "script": "replay/drivers/bnd_validate.py", "args": ["--json"], "timeout": 1200}
 BOUNDED["C19"] = [_VAL]
 _COMP = {"name": "finam-components-pull-at-announced-time", "script": "replay/drivers/bnd_components.py", "args": ["--json"], "timeout": 600}
-BOUNDED["C01"] = [_MON, _COMP]
+_DEL = {"name": "calendar-delays", "script": "replay/drivers/bnd_delays.py", "args": ["--json"], "timeout": 600}
+BOUNDED["C01"] = [_MON, _COMP, _DEL]
+BOUNDED["C13"] = [_DEL]
 BOUNDED["C02"] = [_MON, _COMP]
 BOUNDED["C05"] = [_MON, _VAL]     # the validation outcome must not depend on the order of linking / listing
 REPLAY = {
